@@ -74,6 +74,8 @@ FAULTY = [
     (200, "v11", [], "file:10:x3031323334"),
     (200, "none", [], "filedir:5"),
     (200, "none", [], "tmpmissing:3"),
+    (200, "v2", [], "es:6162,B65522,6364"),
+    (200, "v2", [], "es:B65521,B65522"),
     # succeeds
     (200, "none", [], "vec:x6f6b"),
     (503, "v13", [], "str:x627573"),
@@ -89,6 +91,8 @@ SMALL_FAMILY = [
     (0, 200, "v11", [], "tmp:10:x30313233343536373839"),
     (0, 200, "v2", [], "es:6162,e,636465"),
     (1, 200, "v2", [("cache-control", "no-store")], "es:"),
+    (0, 200, "v2", [], "es:6162,B65522,6364"),           # the event source fails in mid-stream (oversize event)
+    (0, 200, "v2", [], "es:B70000"),                     # ... before the first chunk
     (0, 200, "none", [], "file:10:x3031323334"),          # short file
     (0, 200, "none", [], "file:3:x30313233343536373839"),  # long file
     (0, 200, "none", [], "filemissing:7"),
@@ -160,7 +164,8 @@ def gen(rng, tier):
             for have in (0, 1, n // 2, n - 1, n):
                 cases.append(conn(200, "v11", [], "%s:%d:g7_%d" % (kind, n, have)))
     for b in ("filemissing:10", "filemissing:0", "tmpmissing:10", "filedir:10", "filedir:0", "drop", "getbody",
-              "vec:x6162", "vec:g1_70000", "static:x", "es:6162,6364", "es:"):
+              "vec:x6162", "vec:g1_70000", "static:x", "es:6162,6364", "es:",
+              "es:6162,B65522,6364", "es:B65522", "es:B65521,e,B70000,61"):
         for code in (200, 404, 500, 100):
             cases.append(conn(code, rng.choice(["none", "v13", "v2"]), [], b))
     for name in _c06.NAMES3:
